@@ -1,5 +1,7 @@
 (* C07 - Parallel join delivers the same items as sequential join, each exactly once. *)
-From SV Require Import Base.ListX Store.Masked World.Env World.Join World.JoinProps World.EnvSim.
+From SV Require Import Base.ListX Store.Masked World.Env World.Join World.JoinProps World.JoinAbs World.JoinRefine
+  World.JoinAbsProps World.EnvSim.
+From Coq Require Import Sorting.Permutation.
 
 (* the parallel join is the sequential join: same items (compared as sets: the harness sorts what the
    workers deliver), same final storages, for every member mix that has the ParJoin impls *)
@@ -25,6 +27,38 @@ Theorem C07_any_storage_kind : forall e1 e2 av eids hs n ms, env_rel e1 e2 ->
   env_rel (fst (env_join e1 av eids hs (JPar n) ms)) (fst (env_join e2 av eids hs (JPar n) ms)).
 Proof. intros e1 e2 av eids hs n ms. apply env_join_rel. Qed.
 
+
+(* however the scheduler splits the index space and in whatever order the pieces are processed (any permutation of
+   the keys): on the maps the storages represent, the storages end up cell for cell the same ... *)
+Theorem C07_any_split_same_final_storages : forall unit av hs excl eids ms keys keys' S s j, NoDup keys -> Permutation keys keys' ->
+  cell (fst (a_visit_keys unit av hs excl eids ms keys S)) s j = cell (fst (a_visit_keys unit av hs excl eids ms keys' S)) s j.
+Proof. exact any_visit_order_same_cells. Qed.
+
+(* ... every index is delivered exactly once ... *)
+Theorem C07_any_split_same_indices : forall unit av hs excl eids ms keys keys' S, Permutation keys keys' ->
+  Permutation (map fst (snd (a_visit_keys unit av hs excl eids ms keys S))) (map fst (snd (a_visit_keys unit av hs excl eids ms keys' S))).
+Proof. exact any_visit_order_same_indices. Qed.
+
+(* ... and every storage member hands out, for each index, the same component (no component is handed to two
+   workers: each index is visited once, and the visit of one index touches no cell of another index) *)
+Theorem C07_any_split_same_items : forall unit av hs excl eids pre m post s keys keys' S, NoDup keys -> Permutation keys keys' ->
+  reads_cell m s = true -> forallb (fun m' => negb (m_owns m' s)) pre = true ->
+  forall j xs xs', In (j, xs) (snd (a_visit_keys unit av hs excl eids (pre ++ m :: post) keys S)) ->
+                   In (j, xs') (snd (a_visit_keys unit av hs excl eids (pre ++ m :: post) keys' S)) ->
+  nth_error xs (length pre) = nth_error xs' (length pre).
+Proof. exact any_visit_order_same_items. Qed.
+
+Theorem C07_visits_of_distinct_indices_do_not_interfere : forall unit av hs excl eids ms i S s j, i <> j ->
+  cell (fst (a_visit_members unit av hs excl eids ms i S)) s j = cell S s j.
+Proof.
+  intros unit av hs excl eids ms i S s j H. rewrite a_visit_members_cell. destruct (N.eq_dec i j); [congruence|reflexivity].
+Qed.
+
+Theorem C07_join_refines_the_join_on_maps : forall unit av hs excl eids ms keys e S, absrel unit e S ->
+  snd (visit_keys av hs excl eids ms keys e) = snd (a_visit_keys unit av hs excl eids ms keys S) /\
+  absrel unit (fst (visit_keys av hs excl eids ms keys e)) (fst (a_visit_keys unit av hs excl eids ms keys S)).
+Proof. exact visit_keys_abs. Qed.
+
 Example C07_nonvacuous :
   let e0 := env_register (env_register (env_init false) 1) 3 in
   let av := {| av_alive := fun _ => true; av_cur_gen := fun _ => 1%Z; av_err_gen := fun _ => 1%Z |} in
@@ -39,3 +73,8 @@ Print Assumptions C07_parallel_is_sequential.
 Print Assumptions C07_pool_size_irrelevant.
 Print Assumptions C07_each_index_exactly_once.
 Print Assumptions C07_any_storage_kind.
+Print Assumptions C07_any_split_same_final_storages.
+Print Assumptions C07_any_split_same_indices.
+Print Assumptions C07_any_split_same_items.
+Print Assumptions C07_visits_of_distinct_indices_do_not_interfere.
+Print Assumptions C07_join_refines_the_join_on_maps.
